@@ -209,7 +209,7 @@ class PartialOps:
                 return None
 
             try:
-                ex = Explorer(self.folder, fn, oracle, on_call)
+                ex = Explorer(self.folder, fn, oracle, on_call, enter_with=any(isinstance(w, ast.With) for w in ast.walk(fn.node)))
                 ex.split_conditionals = True
                 outs = ex.run({})
             except AnalysisError:
